@@ -1626,6 +1626,8 @@ class Processor:
                 if unwrapped_lhs in rem_data:
                     continue
                 for rhs in rem_data:
+                    if not isinstance(rhs, dict):
+                        continue
                     if lhs.parentref in rhs:
                         append_node = False
                     if isinstance(rhs, OrderedDict):
